@@ -773,14 +773,14 @@ theorem mergedOf_eq (v : FwView) (cc : CC) (args : List Nat) :
       else some (extractComp v (args.foldl (mergeStep v) ([], cc)).1, (args.foldl (mergeStep v) ([], cc)).2) :=
   rfl
 
-structure MInv (v : FwView) (g : G) (acc : List Nat × CC) : Prop where
+structure MergeInv (v : FwView) (g : G) (acc : List Nat × CC) : Prop where
   inv : CCInv v g acc.2 (fun a => a ∈ acc.1)
   nodup : acc.1.Nodup
   live : ∀ a ∈ acc.1, g.live a = true
 
 theorem mergeStep_spec (v : FwView) (g : G) (h : v.Ok g) (acc : List Nat × CC) (a : Nat)
-    (ha : g.live a = true) (hM : MInv v g acc) :
-    MInv v g (mergeStep v acc a) ∧ (∀ b ∈ acc.1, b ∈ (mergeStep v acc a).1) ∧ a ∈ (mergeStep v acc a).1 := by
+    (ha : g.live a = true) (hM : MergeInv v g acc) :
+    MergeInv v g (mergeStep v acc a) ∧ (∀ b ∈ acc.1, b ∈ (mergeStep v acc a).1) ∧ a ∈ (mergeStep v acc a).1 := by
   unfold mergeStep
   by_cases hm : acc.2.inCC.getD a false = true
   · rw [if_pos hm]
@@ -801,8 +801,8 @@ theorem mergeStep_spec (v : FwView) (g : G) (h : v.Ok g) (acc : List Nat × CC) 
       · exact (f3 b e).1
 
 theorem mergeFold_spec (v : FwView) (g : G) (h : v.Ok g) :
-    ∀ (args : List Nat) (acc : List Nat × CC), (∀ a ∈ args, g.live a = true) → MInv v g acc →
-      MInv v g (args.foldl (mergeStep v) acc) ∧
+    ∀ (args : List Nat) (acc : List Nat × CC), (∀ a ∈ args, g.live a = true) → MergeInv v g acc →
+      MergeInv v g (args.foldl (mergeStep v) acc) ∧
       (∀ b ∈ acc.1, b ∈ (args.foldl (mergeStep v) acc).1) ∧
       (∀ a ∈ args, a ∈ (args.foldl (mergeStep v) acc).1) := by
   intro args
@@ -827,7 +827,7 @@ theorem CC.mergedOf_spec (v : FwView) (g : G) (h : v.Ok g) (args : List Nat)
   rw [mergedOf_eq] at hm
   split at hm
   · cases hm
-  · have hM0 : MInv v g ([], CC.new v) :=
+  · have hM0 : MergeInv v g ([], CC.new v) :=
       ⟨(CC.new_inv v g h).congr (fun a => by simp), List.nodup_nil, fun a ha => by cases ha⟩
     obtain ⟨r1, _, r3⟩ := mergeFold_spec v g h args _ hargs hM0
     obtain ⟨c, hc1, hc2, hc3⟩ := extractComp_good v g h _ r1.nodup r1.live r1.inv.closed
